@@ -493,6 +493,12 @@ add(Contract("yarl._query:query_var", [("v", UNION(STR, _QV))], spec=spec_query.
              note="type gate over the finite type lattice (every representative enumerated) and all strings"))
 
 _QARG = UNION(OPT(STR), CONST(b"x", 5, bytearray(b"y")))
+add(Contract("yarl._query:get_str_query_from_iterable", [("items", "pairs")], spec=spec_query.str_query_from_pairs,
+             raises=(TypeError, ValueError), props=("C12", "C19"),
+             note="pairs in order as key=value joined by '&', each side quoted as a query part (lists of 0, 1, 2 pairs, str / int values)"))
+add(Contract("yarl._query:get_str_query_from_sequence_iterable", [("items", "seqpairs")], spec=spec_query.str_query_from_seq_pairs,
+             raises=(TypeError, ValueError), props=("C12", "C19"),
+             note="mapping items: a list / tuple value repeats the key (0, 1, 2 items; str, int, [str, str], (str, str) values)"))
 add(Contract("yarl._url:URL.with_query", [("self", URLT), ("args", ("varargs", _QARG))], spec=spec_query.with_query_args,
              raises=(TypeError, ValueError), props=("C12", "C11", "C19"),
              note="None and str arguments (mapping / sequence forms go through external multidict and are not under contract)"))
